@@ -86,6 +86,18 @@ func (s *sandbox) resetRoot(state string) error {
 		ioutil.WriteFile(filepath.Join(s.root, "file.txt"), []byte("in-root file"), 0644)
 		ioutil.WriteFile(filepath.Join(s.root, "sub", "inner.txt"), []byte("in-root inner"), 0644)
 		ioutil.WriteFile(filepath.Join(s.root, "sub", "deep", "leaf"), []byte("leaf"), 0644)
+		// names a sloppy path computation confuses with dot segments, at the
+		// top level and below it; "profile" next to ".profile" makes a lost
+		// dot address another existing resource
+		os.MkdirAll(filepath.Join(s.root, ".cfg"), 0755)
+		os.MkdirAll(filepath.Join(s.root, "sub", "..."), 0755)
+		ioutil.WriteFile(filepath.Join(s.root, ".profile"), []byte("dot profile"), 0644)
+		ioutil.WriteFile(filepath.Join(s.root, "profile"), []byte("plain profile!"), 0644)
+		ioutil.WriteFile(filepath.Join(s.root, "..data"), []byte("dotdot data"), 0644)
+		ioutil.WriteFile(filepath.Join(s.root, "...", ), nil, 0644)
+		ioutil.WriteFile(filepath.Join(s.root, ".cfg", "app.ini"), []byte("ini"), 0644)
+		ioutil.WriteFile(filepath.Join(s.root, "sub", ".hidden"), []byte("hidden"), 0644)
+		ioutil.WriteFile(filepath.Join(s.root, "sub", "..."+"", "x"), []byte("x"), 0644)
 	}
 	return nil
 }
@@ -145,6 +157,9 @@ func forms(wire bool, r *rand.Rand, nRandom int) [][2]string {
 				add("backslash-mixed", "/sub\\"+strings.Repeat("..\\../", k)+t)
 			}
 		}
+	}
+	for _, t := range []string{"/", "/sub", "/sub/", "/.cfg", "/sub/...", "/.profile", "/..data", "/..."} {
+		add("plain", t)
 	}
 	for _, t := range []string{"/..", "/../", "/.", "/./", "//", "/sub/..", "/sub/../..", "/sub/../../", "/sub/./../..", "/file.txt/..", "/file.txt/../..", "/...", "/..../x" + tok, "/.. /" + tok, "/..;/" + tok, "/..%00/" + tok} {
 		add("trailing-or-bare", t)
@@ -309,8 +324,15 @@ func (s *sandbox) check(c *fw.Ctx, cs Case, res result, before, after mon.Snap, 
 			c.Report(keyBase+"|unreadable-multistatus", "multi-status not readable: "+err.Error(), map[string]interface{}{"case": cs, "body": trunc(string(res.Body), 600)})
 			return
 		}
+		seenHref := map[string]bool{}
 		for i, r := range ms.Responses {
-			if i >= 6 {
+			for _, raw := range r.Hrefs {
+				if seenHref[raw] {
+					c.Report(keyBase+"|duplicate-href", fmt.Sprintf("href %q is reported for two resources of one answer", raw), map[string]interface{}{"case": cs, "href": raw})
+				}
+				seenHref[raw] = true
+			}
+			if i >= 40 {
 				break
 			}
 			for _, raw := range r.Hrefs {
